@@ -45,6 +45,8 @@ pub struct RestartCase {
     pub first: W1Case,
     pub second_config: Value,
     pub second_spec: RunSpec,
+    /// number of individuals the evolution strategy of the second solve returns (1 = the public default)
+    pub second_returns: usize,
 }
 
 pub fn make_case(seed: u64, tier: Tier) -> RestartCase {
@@ -57,10 +59,13 @@ pub fn make_case(seed: u64, tier: Tier) -> RestartCase {
     if p.chance(0.3) {
         second_spec.stalls.push((p.range(1, 3000) as u64, *p.pick(&[250_000_000u64, 5_000_000_000, 400_000_000_000])));
     }
-    RestartCase { first, second_config: c.config, second_spec }
+    let second_returns = *p.pick(&[1usize, 1, 2, 3]);
+    RestartCase { first, second_config: c.config, second_spec, second_returns }
 }
 
-fn second_run(case: &RestartCase, stored: &str) -> crate::kernel::run::RunOutcome<Second> {
+/// `via_solver`: the identical (deterministic) execution, but through the real entry point `Solver::solve`, which selects
+/// the returned individual itself; only the written document is of interest then.
+fn second_run(case: &RestartCase, stored: &str, via_solver: bool) -> crate::kernel::run::RunOutcome<Second> {
     let problem_text = serde_json::to_string(&case.first.problem).unwrap();
     let matrix_texts: Vec<String> = case.first.matrices.iter().map(|m| serde_json::to_string(m).unwrap()).collect();
     let config_text = serde_json::to_string(&case.second_config).unwrap();
@@ -84,7 +89,28 @@ fn second_run(case: &RestartCase, stored: &str) -> crate::kernel::run::RunOutcom
             Err(e) => return fail(Second::BadConfig, format!("{e}")),
         };
         let debug = std::env::var_os("VSIM_RESTART_DEBUG").is_some();
-        let result = vrp_cli::extensions::solve::config::create_builder_from_config(problem.clone(), vec![seeded_ctx], &config)
+        // how many individuals the evolution strategy hands back (the public default is one; the solver returns the first,
+        // best one whatever the strategy returns)
+        let builder = vrp_cli::extensions::solve::config::create_builder_from_config(problem.clone(), vec![seeded_ctx], &config);
+        let builder = match (builder, case.second_returns) {
+            (Ok(b), n) if n > 1 => Ok(b.with_strategy(Box::new(vrp_core::rosomaxa::evolution::strategies::Iterative::new(vrp_core::solver::get_default_heuristic(problem.clone(), environment.clone()), n)))),
+            (b, _) => b,
+        };
+        if via_solver {
+            let solution = match builder.and_then(|builder| builder.build()).and_then(|config| Solver::new(problem.clone(), config).solve()) {
+                Ok(s) => s,
+                Err(e) => return fail(Second::SolveError, format!("{e}")),
+            };
+            let mut writer = BufWriter::new(Vec::new());
+            let doc = match write_pragmatic(problem.as_ref(), &solution, PragmaticOutputType::OnlyPragmatic, &mut writer) {
+                Ok(()) => String::from_utf8(writer.into_inner().unwrap_or_default()).unwrap_or_default(),
+                Err(e) => return fail(Second::SolveError, format!("cannot write: {e}")),
+            };
+            drop(solution);
+            drop(reference);
+            return sys::monitor(|| Second::Done { seeded: vec![], returned: vec![], order: 0, seeded_routes: 0, seeded_unassigned: 0, doc: doc.as_str().to_string() });
+        }
+        let result = builder
             .and_then(|builder| builder.build())
             .and_then(vrp_core::rosomaxa::evolution::EvolutionSimulator::new)
             .and_then(|s| s.run())
@@ -144,7 +170,7 @@ fn record(case: &RestartCase, seed: u64) -> CaseRecord {
     };
     rec.count("restart.first_runs_stored", 1);
     rec.count("faults.first_run_clock_stalls_fired", out1.stalls_fired);
-    let out2 = second_run(case, &stored);
+    let out2 = second_run(case, &stored, false);
     rec.log_hash ^= out2.log_hash.rotate_left(31);
     rec.sim_ns += out2.sim_ns;
     if out2.arena_live != 0 {
@@ -192,6 +218,29 @@ fn record(case: &RestartCase, seed: u64) -> CaseRecord {
                     }
                 }
             }
+            // the same deterministic execution through the real entry point: Solver::solve must hand out exactly the
+            // individual judged above (the first, best one of what the strategy returns)
+            let twin = second_run(case, &stored, true);
+            if twin.arena_live != 0 {
+                rec.taint = true;
+            }
+            rec.evaluations += 1;
+            match twin.result {
+                Ok(Second::Done { doc: twin_doc, .. }) => {
+                    rec.count("restart.twin_runs_through_solver", 1);
+                    rec.count(&format!("restart.strategy_returns.{}", case.second_returns), 1);
+                    let strip = |d: &str| serde_json::from_str::<Value>(d).ok().map(|mut v| {
+                        if let Some(o) = v.as_object_mut() {
+                            o.remove("extras");
+                        }
+                        v
+                    });
+                    if strip(&twin_doc) != strip(&doc) {
+                        push(&mut rec, "solver-returns-other-individual", population.clone(), format!("Solver::solve does not return the best individual of the final population ({} individuals requested from the strategy): the document it hands out differs from the document of the first ranked individual of the identical execution", case.second_returns));
+                    }
+                }
+                Ok(_) | Err(_) => push(&mut rec, "solver-returns-other-individual", population.clone(), "the identical execution through Solver::solve did not end with a solution".into()),
+            }
             if seeded_routes >= 1 {
                 rec.nontrivial_key = Some(hash_str(&stored) ^ out2.log_hash.rotate_left(9) ^ seed);
             }
@@ -223,12 +272,13 @@ impl Scenario for RestartScenario {
         doc["case_seed"] = json!(case_seed);
         doc["second_config"] = c.second_config;
         doc["second_spec"] = c.second_spec.to_json();
+        doc["second_returns"] = json!(c.second_returns);
         doc
     }
     fn replay(&self, doc: &Value) -> CaseRecord {
         let seed = doc.get("case_seed").and_then(|s| s.as_u64()).unwrap_or(0);
         match (W1Case::from_json(doc), doc.get("second_config"), doc.get("second_spec").and_then(RunSpec::from_json)) {
-            (Some(first), Some(cfg), Some(spec)) => record(&RestartCase { first, second_config: cfg.clone(), second_spec: spec }, seed),
+            (Some(first), Some(cfg), Some(spec)) => record(&RestartCase { first, second_config: cfg.clone(), second_spec: spec, second_returns: doc.get("second_returns").and_then(|n| n.as_u64()).unwrap_or(1) as usize }, seed),
             _ => CaseRecord { harness_error: Some("replay file is not a restart case".into()), ..Default::default() },
         }
     }
